@@ -382,6 +382,24 @@ func (e *Pattern) writeTo(s *strings.Builder) {
 	}
 }
 
+func (e *Pattern) variables(xs []string) []string {
+	if e.Name != "" {
+		return append(xs, e.Name)
+	}
+	for _, e := range e.Array {
+		xs = e.variables(xs)
+	}
+	for _, e := range e.Object {
+		if e.Key != "" && e.Key[0] == '$' {
+			xs = append(xs, e.Key)
+		}
+		if e.Val != nil {
+			xs = e.Val.variables(xs)
+		}
+	}
+	return xs
+}
+
 // PatternObject ...
 type PatternObject struct {
 	Key       string
